@@ -111,7 +111,7 @@ class WAPProtocol(HTTPProtocol):
         retval = wmlheader
         title = "Gopher"
         if self.entry.getname():
-            title = html.escape(self.entry.getname())
+            title = self.entry.getname()
         retval += '<card id="index" title="%s" newcontext="true">' % html.escape(title)
 
         retval += "\n<p>\n"
